@@ -28,6 +28,11 @@ class C12(Prop):
         "NV.C12.countCond_spec",
         "NV.C12.pollBlocks_spec",
         "NV.C12.growBy_pos",
+        "NV.C12.cSpaceRule_discard",
+        "NV.C12.arrivals_append_partial",
+        "NV.C12.arrivals_discard",
+        "NV.C12.userIO_ovf",
+        "NV.C12.run_ovf",
         "NV.C12.firstUserSlot_spec",
         "NV.C12.backendOrder_spec",
         "NV.C12.errorReentry_spec",
@@ -41,7 +46,6 @@ class C12(Prop):
         "NV.C12.at_most_one_per_user_per_cycle",
         "NV.C12.no_turn_no_service",
         "NV.C12.per_user_fifo",
-        "NV.C12.arrivals_append",
         "NV.C12.command_efun_unlimited",
         "NV.C12.command_efun_needs_no_turn",
         "NV.C12.scan_spec",
@@ -113,7 +117,7 @@ class C12(Prop):
         "NV.C12.inLoop_fold",
         "NV.C12.cmdLoop_inLoop",
     ]
-    witness_theorems = []
+    witness_theorems = ["NV.C12.arrivals_append_Full_false"]
     consts = [("hasCmdTurn", "HAS_CMD_TURN"), ("cmdInBuf", "CMD_IN_BUF"), ("singleChar", "SINGLE_CHAR"),
               ("maxText", "MAX_TEXT")]
     const_headers = ["src/comm.h"]
@@ -249,6 +253,17 @@ class C12(Prop):
         if len(m6) != 1 or not re.search(r"while \(max_users < new_max_users\)\s*all_users\[max_users\+\+\] = 0;", comm):
             raise X.TieBroken("guard:table growth", "cannot locate `new_max_users = max_users + N` / the fill loop in new_interactive()")
         out.append("/-- C (new_interactive): `int new_max_users = max_users + %s;` -/\ndef growBy : Nat := %s" % (m6[0], m6[0]))
+        # (i) the space rule of get_user_data (PORT_TELNET): divisors of the two tests and of the space after a discard
+        m8 = re.search(r"text_space = \(MAX_TEXT - \(int\)ip->text_end - 1\) / (\d+);\s*/\*[^*]*\*/\s*if \(text_space < MAX_TEXT / (\d+)\)\s*\{"
+                       r"\s*size_t len = ip->text_end - ip->text_start;\s*memmove \(ip->text, ip->text \+ ip->text_start, len \+ 1\);\s*"
+                       r"ip->text_start = 0;\s*ip->text_end = len;\s*text_space = \(MAX_TEXT - ip->text_end - 1\) / (\d+);\s*"
+                       r"if \(text_space < MAX_TEXT / (\d+)\)\s*\{[^{}]*ip->text_start = 0;\s*ip->text_end = 0;\s*text_space = MAX_TEXT / (\d+);",
+                       comm, re.S)
+        if not m8 or m8.group(1) != m8.group(3) or m8.group(2) != m8.group(4):
+            raise X.TieBroken("guard:space rule", "get_user_data's PORT_TELNET space rule (space / compaction / discard) left its shape")
+        out.append("/-- C (get_user_data): `text_space = (MAX_TEXT - text_end - 1) / %s` -/\ndef spaceDiv : Nat := %s" % (m8.group(1), m8.group(1)))
+        out.append("/-- C (get_user_data): `if (text_space < MAX_TEXT / %s)` (both tests) -/\ndef compactDiv : Nat := %s" % (m8.group(2), m8.group(2)))
+        out.append("/-- C (get_user_data): `text_space = MAX_TEXT / %s` after the discard -/\ndef discardSpaceDiv : Nat := %s" % (m8.group(5), m8.group(5)))
         # (g) the slot search of new_interactive starts behind the console slot; a new interactive holds no flag
         m7 = re.findall(r"for \(i = (\d+); i < max_users; i\+\+\)\s*if \(!all_users\[i\]\)\s*break;", comm)
         if len(m7) != 1 or not re.search(r"master_ob->interactive->iflags = 0;", comm):
@@ -383,6 +398,14 @@ class C12(Prop):
         mk("exec-moves-connection", ["script u1 =x exec;gc", "script u2 =y exec;exec;ecmd,u1,m1", "script u1 =m1 exec;it",
                                      "script u3 =k exec;kick,u3"] + conns(3) +
            ["send u1 x~ab~c~", "send u2 y~p~q~", "send u3 r~k~s~"] + ["cycle"] * 5 + ["send u1 z~", "cycle", "cycle"])
+        # type-ahead far beyond what is served (about 20 commands arrive per cycle, one is executed): everybody else is
+        # still served in every cycle; below the discard size nothing is lost
+        fl = []
+        nx = 0
+        for c in range(9):
+            s, nx = self.flood(1, nx, 30)
+            fl += [s, "send u2 x%d~" % c, "cycle"]
+        mk("long-typeahead-below-discard", conns(3) + fl + ["send u3 z~"] + ["cycle"] * 6)
         mk("kick-waiting-user", ["script u3 =k kick,u1;kick,u2", "script u2 =s kick,u2;gc"] + conns(3) +
            ["send u1 a~b~", "send u2 a~b~", "send u3 k~c~", "cycle", "cycle", "conn", "cycle", "send u4 s~", "cycle", "cycle"])
         mk("self-kick-and-drop", ["script u2 =s kick,u2;ecmd,u1,m1", "script u1 =d drop,u1;ecmd,u1,m1;gc", "script u1 =m1 it"] +
@@ -557,6 +580,48 @@ class C12(Prop):
             body += ["conn", "cycle", "send u%d q~" % (n + 1), "cycle", "cycle"]
         return E.Case(cid, lines + body + ["run"], {"origin": "generated-sparse"})
 
+    @staticmethod
+    def flood(user, first, nlines, tag="q"):
+        """one `send` of numbered (unique) lines, at most MAX_TEXT/16 = 128 bytes on the wire"""
+        out, raw, i = "", 0, first
+        while i < first + nlines:
+            l = "%s%d~" % (tag, i)
+            if raw + len(l) + 1 > 120:
+                break
+            out += l
+            raw += len(l) + 1
+            i += 1
+        return "send u%d %s" % (user, out), i
+
+    def gen_longqueue(self, rng, cid, cross=None):
+        """type-ahead far beyond what is served: one or two users paste ~120 bytes per cycle (about 20 commands) while one
+        command per cycle is executed; the others send now and then and must be served in every cycle.  `cross`: go on
+        until the pending text reaches the size at which get_user_data throws the buffer away (C13-typeahead-discard)"""
+        n = rng.range(2, 4)
+        flooders = [1] if rng.chance(2, 3) else [1, 2]
+        if cross is None:
+            cross = rng.chance(1, 3)
+        cycles = rng.range(14, 17) if cross else rng.range(4, 10)
+        lines = []
+        if rng.chance(1, 3):
+            lines.append("script u%d =%s gc" % (n, "x3"))
+        body = ["conn", "cycle"] * n
+        nxt = {f: 0 for f in flooders}
+        k = 0
+        for c in range(cycles):
+            for f in flooders:
+                s, nxt[f] = self.flood(f, nxt[f], 30, "q" if f == 1 else "r")
+                body.append(s)
+            for u in range(1, n + 1):
+                if u not in flooders and rng.chance(1, 2):
+                    body.append("send u%d x%d~" % (u, k))
+                    k += 1
+            body.append("cycle")
+            if c == cycles // 2 and rng.chance(1, 3) and n not in flooders:
+                body += ["close u%d" % n, "cycle"]
+        body += ["cycle"] * rng.range(3, 8)
+        return E.Case(cid, lines + body + ["run"], {"origin": "generated-longqueue"})
+
     def gen_quitters(self, rng, cid):
         """everybody holds a command in the same cycle; two or more users leave by their own command (destruct /
         remove_interactive) or are removed by somebody else's; cursor parked at a random slot; few or no idle users"""
@@ -592,6 +657,8 @@ class C12(Prop):
         for i in range(n):
             if (tier == "search" and i < 150) or i % 7 == 6:
                 out.append(self.gen_quitters(rng, "g%d" % i))
+            elif i % 11 == 10 or (tier == "search" and i < 200):
+                out.append(self.gen_longqueue(rng, "g%d" % i))
             elif i % 5 == 4:
                 out.append(self.gen_sparse(rng, "g%d" % i))
             else:
